@@ -10,6 +10,7 @@ import (
 	"path/filepath"
 	"sort"
 	"strings"
+	"sync"
 
 	"chainguard.dev/apko/pkg/apk/apk"
 	"chainguard.dev/apko/pkg/build"
@@ -35,7 +36,11 @@ type family struct {
 func writeIndex(dir string, arch types.Architecture, pkgs []pkgT) error {
 	idx := &apk.APKIndex{Description: "c14 " + arch.ToAPK()}
 	for _, p := range pkgs {
-		idx.Packages = append(idx.Packages, &apk.Package{Name: p.Name, Version: p.Version, Arch: arch.ToAPK(), Origin: p.Name,
+		pa := arch.ToAPK()
+		if p.Noarch {
+			pa = "noarch"
+		}
+		idx.Packages = append(idx.Packages, &apk.Package{Name: p.Name, Version: p.Version, Arch: pa, Origin: p.Name,
 			Dependencies: append([]string(nil), p.Deps...), Provides: append([]string(nil), p.Provides...),
 			InstallIf: append([]string(nil), p.InstallIf...), ProviderPriority: p.Prio,
 			Checksum: []byte(fmt.Sprintf("%-20.20s", arch.ToAPK()+p.Name+p.Version))})
@@ -105,7 +110,26 @@ func runFamily(tmp string, n int, f *family) (*famObs, error) {
 	if f.Transport != "local" {
 		fsrv := http.FileServer(http.Dir(dir))
 		etag := f.Transport == "http-etag"
+		// http-fault: the first request for the index of the architecture that sorts last is refused once (403: not retried by
+		// the client); the context that sorts first meets the refusal while it loads that sibling's indexes
+		var faultMu sync.Mutex
+		faultPath := ""
+		if f.Transport == "http-fault" {
+			ds := append([]string(nil), distinctArchs(f.Archs)...)
+			sort.Strings(ds)
+			faultPath = "/repo0/" + types.Architecture(ds[len(ds)-1]).ToAPK() + "/APKINDEX.tar.gz"
+		}
 		srv := httptest.NewServer(http.HandlerFunc(func(w http.ResponseWriter, r *http.Request) {
+			faultMu.Lock()
+			hit := faultPath != "" && r.URL.Path == faultPath
+			if hit {
+				faultPath = ""
+			}
+			faultMu.Unlock()
+			if hit {
+				http.Error(w, "refused once", http.StatusForbidden)
+				return
+			}
 			if etag {
 				w.Header().Set("ETag", fmt.Sprintf(`"fam%d"`, n))
 			}
@@ -382,6 +406,34 @@ func stageMultiarch(out string, seed uint64, tier string) error {
 			return err
 		}
 	}
+	// a sibling's index cannot be loaded ONCE (seeded change C14-4: the failed sibling was left out of the comparison): whatever a
+	// context answers while the fault lasts is an error or a filtered list
+	for _, as := range [][]string{{"amd64", "arm64"}, {"amd64", "arm64", "riscv64"}, {"arm/v6", "arm/v7"}} {
+		as := as
+		if err := add(&family{Archs: as, World: []string{"app"}, Transport: "http-fault", Note: "the last architecture lags and its index is refused once",
+			Repos: one(as, func(i int, a string) []pkgT {
+				if i == len(as)-1 {
+					return without(without(baseUniverse(), "lib", "2.0-r1"), "tool", "1.0-r0")
+				}
+				return baseUniverse()
+			})}, "corpus"); err != nil {
+			return err
+		}
+	}
+	// index entries that say A:noarch: availability is still per index (seeded change C14-6: noarch entries skipped by the comparison)
+	for _, tr := range []string{"local", "http-noetag"} {
+		as := []string{"amd64", "arm64"}
+		if err := add(&family{Archs: as, World: []string{"tzdata", "app"}, Transport: tr, Note: "a noarch package newer on one architecture, as a request and as a dependency",
+			Repos: one(as, func(i int, a string) []pkgT {
+				u := append(baseUniverse(), pkgT{Name: "tzdata", Version: "2024a-r0", Noarch: true}, pkgT{Name: "zoneinfo-user", Version: "1-r0", Deps: []string{"tzdata"}})
+				if i == 0 {
+					u = append(u, pkgT{Name: "tzdata", Version: "2024b-r0", Noarch: true})
+				}
+				return u
+			})}, "corpus"); err != nil {
+			return err
+		}
+	}
 	// the same architecture requested twice: one context
 	archs := []string{"amd64", "arm64", "amd64"}
 	if err := add(&family{Archs: archs, World: []string{"app"}, Transport: "local", Note: "an architecture listed twice",
@@ -578,7 +630,24 @@ func stageMultiarch(out string, seed uint64, tier string) error {
 			}
 			u[a] = l
 		}
-		if err := add(&family{Archs: archs, Repos: []repoT{{Pkgs: u}}, World: gal.Pick(r, worlds), Transport: gal.Pick(r, transports)}, class); err != nil {
+		// drawn after everything else so that the older random choices stay what they were: index entries marked noarch
+		// (all entries of one name, on every architecture) and, sometimes, an index refused once
+		tr := gal.Pick(r, transports)
+		if i%7 == 3 {
+			noarch := gal.Pick(r, []string{"lib", "libtool", "tool", "postfix"})
+			for a := range u {
+				for k := range u[a] {
+					if u[a][k].Name == noarch {
+						u[a][k].Noarch = true
+					}
+				}
+			}
+			class += "/noarch-entries"
+		}
+		if i%9 == 4 {
+			tr = "http-fault"
+		}
+		if err := add(&family{Archs: archs, Repos: []repoT{{Pkgs: u}}, World: gal.Pick(r, worlds), Transport: tr}, class); err != nil {
 			return err
 		}
 	}
